@@ -53,43 +53,57 @@ def AnnE.isLiteralRef : AnnE → Bool
   | .attr _ 0 => true
   | _ => false
 
-/-- `_AnnotationStringParser().visit(node)`: `none` = `SyntaxError` raised by `_parse_string`.
-`visit_Constant` parses a string and visits the result; `visit_Subscript` visits the value first and
-keeps the slice verbatim when the *visited* value is `Literal` / `….Literal`; everything else is
-`generic_visit` (children in order). -/
-def AnnE.unstringE : AnnE → Option AnnE
-  | .atom a => some (.atom a)
-  | .literalName => some .literalName
-  | .noneLit => some .noneLit
-  | .str e => e.unstringE
-  | .badStr _ => none
+/-- `_AnnotationStringParser().visit(node)`. First component: the returned node, `none` = `SyntaxError`
+raised by `_parse_string`. Second component: the *original* node after the visit — `ast.NodeTransformer`
+works in place: `generic_visit` assigns a visited child back into its parent (`setattr(node, field, new)`
+for a single child such as `Attribute.value`, `BinOp.left`, `BinOp.right`; `old_value[:] = new_values` for
+a list such as `Tuple.elts`, only once every element has been visited), so when a later string raises,
+what was already replaced stays replaced.
+`visit_Constant` parses a string and visits the parsed tree (the Constant itself is never modified);
+`visit_Subscript` visits the value, then keeps the slice verbatim when the *visited* value is `Literal`
+/ `….Literal`, else visits the slice, and builds a NEW Subscript (the original one keeps its children). -/
+def AnnE.visit : AnnE → Option AnnE × AnnE
+  | .atom a => (some (.atom a), .atom a)
+  | .literalName => (some .literalName, .literalName)
+  | .noneLit => (some .noneLit, .noneLit)
+  | .str e => ((e.visit).1, .str e)
+  | .badStr a => (none, .badStr a)
   | .attr v n =>
-    match v.unstringE with
-    | some v' => some (.attr v' n)
-    | none => none
+    match v.visit with
+    | (some v', _) => (some (.attr v' n), .attr v' n)
+    | (none, vm) => (none, .attr vm n)
   | .sub v s =>
-    match v.unstringE with
-    | none => none
-    | some v' =>
-      if v'.isLiteralRef then some (.sub v' s)
-      else match s.unstringE with
-        | some s' => some (.sub v' s')
-        | none => none
+    match v.visit with
+    | (none, vm) => (none, .sub vm s)
+    | (some v', vm) =>
+      if v'.isLiteralRef then (some (.sub v' s), .sub vm s)
+      else match s.visit with
+        | (some s', sm) => (some (.sub v' s'), .sub vm sm)
+        | (none, sm) => (none, .sub vm sm)
   | .tup a b =>
-    match a.unstringE, b.unstringE with
-    | some a', some b' => some (.tup a' b')
-    | _, _ => none
+    match a.visit with
+    | (none, am) => (none, .tup am b)
+    | (some a', am) =>
+      match b.visit with
+      | (none, bm) => (none, .tup am bm)
+      | (some b', _) => (some (.tup a' b'), .tup a' b')
   | .bor a b =>
-    match a.unstringE, b.unstringE with
-    | some a', some b' => some (.bor a' b')
-    | _, _ => none
+    match a.visit with
+    | (none, am) => (none, .bor am b)
+    | (some a', _) =>
+      match b.visit with
+      | (none, bm) => (none, .bor a' bm)
+      | (some b', _) => (some (.bor a' b'), .bor a' b')
 
-/-- `astutils.unstring_annotation`: on `SyntaxError` the *original* node is returned unchanged
-(and a warning is reported). -/
+/-- the visit's result; `none` = `SyntaxError` -/
+def AnnE.unstringE (e : AnnE) : Option AnnE := e.visit.1
+
+/-- `astutils.unstring_annotation`: on `SyntaxError` a warning is reported and "the original node" is
+returned — which the transformer may already have modified in place. -/
 def AnnE.unstring (e : AnnE) : AnnE :=
-  match e.unstringE with
-  | some r => r
-  | none => e
+  match e.visit with
+  | (some r, _) => r
+  | (none, orig) => orig
 
 /-- `ast.arg`: name and optional annotation. -/
 structure Arg where
